@@ -1,4 +1,5 @@
 """C08 — lazy-mdat mode is observationally equal to in-memory mode."""
+import os
 import common
 from common import sh2
 
@@ -17,6 +18,8 @@ MANIFEST = {
                   "payload = box, equal Size()); C08_copy_samples (CopySampleData, every work buffer length and content, every run of "
                   "chunks covering samples a..b inside the payload: both modes write the concatenation of the samples' bytes; loop "
                   "invariant written ++ workSpace[0..workPos) = prefix), C08_zero_size_at_eof_refuted (pinned `for {` refill loop). "
+                  "C08_copy_samples_end_to_end (coq/c08/C08ComposedTheorems.v: composed with C09's model of GetContainingChunks - for "
+                  "C09-consistent tables and every 1 <= a <= b <= N the chunk list satisfies chunks_cover); "
                   "C08_tree_equal (DecodeFile's top-level walk over any sequence of boxes, mdat anywhere, 8/16-byte headers: both modes "
                   "give the same type/StartPos/Size per box and LargeSize per mdat; boxes other than mdat are opaque because the same Go "
                   "decoder runs on them in both modes - below the top level the equality is explored by the search: Info dump, sizes and "
@@ -55,6 +58,15 @@ def run(ctx):
                         "cap(m.Data) = len(m.Data) for a decoded in-memory mdat"]
     exe, model = build(ctx)
     pr = ctx.proofs("c08", "C08Theorems.v")
+    # composition with C09's sample-table model (coq/c09, another property's files, imported read-only): only
+    # attempted when those files build; a break inside coq/c09 is C09's alarm, not a C08 violation
+    pr2 = None
+    ok09, o09 = common.coq_make(["c09/C09StscProofs.vo"], "c08") if os.path.isdir(os.path.join(common.COQ, "c09")) else (False, "coq/c09 absent")
+    if ok09:
+        pr2 = ctx.proofs("c08", "C08ComposedTheorems.v")
+    else:
+        ctx.notes["composition_with_C09"] = "skipped: coq/c09 does not build here (%s)" % o09[-300:].replace("\n", " ")
+        ctx.log("composition with C09 skipped: coq/c09 does not build")
     # ---- correspondence
     n = ctx.n(40, 400)
     exh = ctx.n(12, 18)
@@ -93,7 +105,7 @@ def run(ctx):
     ctx.cov["samples"] += [l[:300] for l in lines[:2]] + [l[:300] for l in rl[40:43]] + [l[:300] for l in lines[-2:]]
     ctx.log("correspondence: %d cases, %d mismatches" % (len(lines), len(mism)))
     # ---- search
-    ns = ctx.n(60, 600)
+    ns = ctx.n(60, 2500)
     rc, so, e = sh2([exe, "search", "-seed", str(ctx.seed), "-n", str(ns), "-exh", str(exh)], timeout=3000)
     if rc != 0:
         raise common.CheckError("harness search failed: " + e[-1000:])
@@ -125,6 +137,8 @@ def run(ctx):
                        "model_says": mism[0][:2000]},
                       "model/implementation disagree on %d cases" % len(mism), no_input=True)
     ctx.proof_violation_if_broken(pr, "c08 search: %d evaluations, no failing input" % ctx.notes.get("search_evaluations", 0))
+    if pr2 is not None:
+        ctx.proof_violation_if_broken(pr2, "c08 search: %d evaluations, no failing input" % ctx.notes.get("search_evaluations", 0))
     ctx.cov["rule"] = ("corr: %d synthesized files (free boxes before/after, 8- and 16-byte mdat headers, payload 0..%d) decoded by the real "
                        "DecodeBox and DecodeBoxLazyMdat through an oracle-driven short-reading ReadSeeker; for each, EVERY (start,size) with "
                        "start in [payloadStart-2, payloadEnd+2] and size in [-1, len+2] through ReadData and CopyData in both modes (values, "
